@@ -226,11 +226,14 @@ Proof.
   pose proof (verb_http_known _ Hv) as Hh. destruct (verb_http (mt_verb m)); try reflexivity. contradiction.
 Qed.
 
-Lemma nerr_service_clean ms o : forallb method_in_language ms = true -> d_nerr (compile_service (mkService ms o)) = 0.
+Lemma nerr_service_clean ms o : forallb method_in_language ms = true -> no_list_request ms ->
+  d_nerr (compile_service (mkService ms o)) = 0.
 Proof.
-  intro H. unfold compile_service, visit_io_objects; cbn [sv_methods sv_options].
-  destruct (existsb m_request ms); destruct o; rewrite ?nerr_set, ?nerr_ens, ?nerr_set, ?nerr_ens, (methods_nerr ms d0 H); reflexivity.
+  intros H Hn. unfold compile_service, visit_io_objects; cbn [sv_methods sv_options].
+  destruct (existsb m_request ms); destruct o; rewrite ?nerr_set, ?nerr_ens, ?nerr_set, ?nerr_ens, (methods_nerr ms d0 H Hn); reflexivity.
 Qed.
+Lemma abs_methods_no_list_request pok ms : no_list_request (map (abs_method pok) ms).
+Proof. intros m Hm. apply in_map_iff in Hm. destruct Hm as [x [<- _]]. reflexivity. Qed.
 
 (* a field and, when its type is defined inline, the fields of that definition are well-formed *)
 Definition ofield_ok_deep (f : ofield) : bool :=
@@ -277,9 +280,9 @@ Proof.
   - destruct Hin as [<-|[]]. apply nerr_decl; reflexivity.
   - cbn [comp_clean] in Hc. destruct (Entity.sv_ann s).
     + destruct Hin as [<-|[]]. cbn [snd decl_state]. apply andb_prop in Hc. destruct Hc as [-> Hv].
-      apply nerr_service_clean, abs_methods_in_language, Hv.
+      apply nerr_service_clean; [apply abs_methods_in_language, Hv|apply abs_methods_no_list_request].
     + destruct Hin as [<-|[]]. cbn [snd decl_state]. apply andb_prop in Hc. destruct Hc as [-> Hv].
-      apply nerr_service_clean, abs_methods_in_language, Hv.
+      apply nerr_service_clean; [apply abs_methods_in_language, Hv|apply abs_methods_no_list_request].
     + destruct Hin as [<-|[]]. apply nerr_decl; reflexivity.
 Qed.
 
